@@ -828,7 +828,7 @@ class ImageBatch(DataTensor):
         crop = tuple((m - n) // 2 for m, n in zip(self.shape[2:], data.shape[2:]))
         crop = tuple(reversed(crop))
         grid = tuple(grid.crop(crop) for grid in self._grid)
-        return self._make_instance(data, grid)
+        return self._regrid(data, grid)
 
     @overload
     def sample(
